@@ -96,6 +96,11 @@ Theorem pe_refuses_clean :
      (sp_cert_size f = 0 \/ sp_cert_va f + sp_cert_size f = zlen f)).
 Proof. exact (conj FmtPE.Proofs.refuses_clean_pe (conj FmtPE.ProofsB.embed_too_big_hashin FmtPE.ProofsB.accepted_facts)). Qed.
 
+(* C01 / C11: DigestPE (sign path, server side included) returns a digest or an ordinary error on EVERY byte string — no slice or
+   divide panic (holds since relic commits 53d79ae and 19efad9; before them: optional header shorter than two bytes, FileAlignment 0) *)
+Theorem pe_digest_no_panic : forall f p, digest_pe f <> Panic p.
+Proof. exact FmtPE.ProofsB.digest_pe_no_panic. Qed.
+
 (* C01 (no spurious refusal): every image of class relic_dom (Model.v: well-formed headers, e_lfanew >= 64, full-size
    optional header, non-empty sections tiling the file from SizeOfHeaders on IN TABLE ORDER with FileAlignment-multiple raw
    sizes except the last table entry, certificate table = tail of the file) is accepted *)
